@@ -149,7 +149,7 @@ class StateTriggerDecorator(TriggerDecorator, ExpressionDecorator, AutoKwargsDec
             return "None"
         return f"{(now - dt):g} ago"
 
-    async def _check_new_state(self, trig_ok: bool) -> None:
+    async def _check_new_state(self, trig_ok: bool, initial: bool = False) -> None:
         now = asyncio.get_running_loop().time()
         if _LOGGER.isEnabledFor(logging.DEBUG):
             msg = f"check_new_state: {self}"
@@ -165,7 +165,8 @@ class StateTriggerDecorator(TriggerDecorator, ExpressionDecorator, AutoKwargsDec
         state_hold_false_passed = False
         state_hold_true_passed = False
         if trig_ok:
-            if self.state_hold_false is None or not self.has_expression():
+            if self.state_hold_false is None or not self.has_expression() or initial:
+                # the state_check_now check at start-up is not subject to state_hold_false
                 state_hold_false_passed = True
             else:
                 if self.false_entered_at:
@@ -234,11 +235,8 @@ class StateTriggerDecorator(TriggerDecorator, ExpressionDecorator, AutoKwargsDec
             self.last_new_vars = State.notify_var_get(self.state_trig_ident, {})
             trig_ok = await self._is_trig_ok()
 
-            if self.in_wait_until_function and trig_ok and self.state_check_now is True:
-                self.state_hold_false = None
-
             if self.state_check_now and self.has_expression():
-                await self._check_new_state(trig_ok)
+                await self._check_new_state(trig_ok, initial=True)
             else:
                 if not trig_ok and self.state_hold_false is not None:
                     self.false_entered_at = loop.time()
